@@ -39,6 +39,7 @@ type mTable struct {
 	Idx      []mIdx
 	FKs      []mFK
 	Checks   []mCheck
+	Renamed  bool
 }
 
 type mView struct {
